@@ -633,6 +633,7 @@ func runC09(r *core.Run) {
 		tasks[i] = t
 	}
 	measBuf := r.Chance(30, "options-carry-a-measurement?")
+	measEndorsed := measBuf && r.Bool("the-carried-measurement-is-endorsed?")
 	newOpts := func() *verify.Options {
 		o := &verify.Options{RootsOfTrust: mkPool(), Now: now, Getter: net}
 		if shape != 3 {
@@ -641,6 +642,15 @@ func runC09(r *core.Run) {
 				// the caller's options carry a measurement of their own (a validator takes each
 				// report's measurement instead): a slice with room for 48 bytes, which stays the caller's
 				o.SNP.Measurement = append(make([]byte, 0, 64), bytes.Repeat([]byte{0xEE}, 48)...)
+				if measEndorsed {
+					// ... left over from a verify.Endorsement call on the same value: an endorsed
+					// measurement, which must not vouch for the reports of other calls
+					pinned := is.Golden.SevSnp.Measurements[2]
+					if named != 0 {
+						pinned = is.Golden.SevSnp.Measurements[named]
+					}
+					o.SNP.Measurement = append(make([]byte, 0, 64), pinned...)
+				}
 			}
 		}
 		return o
@@ -860,6 +870,18 @@ func runC09(r *core.Run) {
 	gotErr := call(probe, sharedF, sharedOpts, sharedSev)
 	if (wantErr == nil) != (gotErr == nil) {
 		r.Fail("result-differs-from-isolation", fmt.Sprintf("later-call/shared-%d", shape), "%s: after the calls above, an isolated call through the shared value gives accept=%v, a fresh value gives accept=%v", where, gotErr == nil, wantErr == nil)
+	}
+	// several reports in a row whose endorsement the bucket does not have, one after the other
+	// through the shared value: each is refused on its own, and none of it may stick either
+	if r.Chance(40, "a-run-of-refusals-first?") {
+		for k := 0; k < 4; k++ {
+			// measurements nobody ever signed: the bucket answers 404 to each
+			refused := &c09Task{meas: bytes.Repeat([]byte{0xA5 + byte(k)}, 48), measClass: "unendorsed", source: 1}
+			if e := call(refused, sharedF, sharedOpts, sharedSev); e == nil {
+				r.Fail("unendorsed-accepted", fmt.Sprintf("run-of-refusals/shared-%d", shape), "%s: report %d of a run of reports with a measurement nobody signed was accepted", where, k+1)
+			}
+		}
+		r.Probe("run-of-refusals-before-later-fetch")
 	}
 	// and an endorsed report fetched over the (healed) network: whatever failed earlier must not stick
 	{
